@@ -13,7 +13,8 @@ open NumOps
 /-! ## 0. the constants of the model are the constants of the source (translator `tools/gen_surfconst.py`) -/
 
 /-- `Gen/SurfConst.lean` is regenerated from `global_structures.h`, `model.cpp`, `prep.cpp` on every run; the model's
-Faraday / gas / permittivity constants, the `8` of the Gouy–Chapman constant, the `0.5` of the CD-MUSIC diffuse-layer
+Faraday / gas / permittivity constants, the `8` of the Gouy–Chapman constant, the `8000` of `f_sinh` and the `0.5` of
+`alpha_global` (integrate.cpp), the `0.5` of the CD-MUSIC diffuse-layer
 charge, the `-2` of the psi token and the `2` of the CCM row are exactly the extracted ones -/
 theorem source_constants (f : TransFns Rat) (epsr tk x sum cap la : Rat) (aq : List (Rat × Rat)) :
     letI := ratOps f
@@ -22,17 +23,31 @@ theorem source_constants (f : TransFns Rat) (epsr tk x sum cap la : Rat) (aq : L
     (R_KJ_DEG_MOL : Rat) = Gen.SurfConst.R_KJ_DEG_MOL ∧ (EPSILON_ZERO : Rat) = Gen.SurfConst.EPSILON_ZERO ∧
     sinhConstant epsr tk = f.sqrt (Gen.SurfConst.GC_FACTOR * epsr * Gen.SurfConst.EPSILON_ZERO *
       (Gen.SurfConst.R_KJ_DEG_MOL * 1000) * tk * 1000) ∧
+    fSinh epsr tk cap = f.sqrt (Gen.SurfConst.FSINH_FACTOR * epsr * Gen.SurfConst.EPSILON_ZERO *
+      (Gen.SurfConst.R_KJ_DEG_MOL * 1000) * tk * cap) ∧
+    alphaConst epsr tk = f.sqrt (epsr * Gen.SurfConst.EPSILON_ZERO * (Gen.SurfConst.R_KJ_DEG_MOL * 1000) * 1000 * tk *
+      Gen.SurfConst.ALPHA_FACTOR) ∧
     (0 ≤ sum → 0 ≤ x → cdSigmaDDL epsr tk x sum = Gen.SurfConst.CD_DDL_FACTOR * sinhConstant epsr tk * f.sqrt sum) ∧
     psiCoef aq = Gen.SurfConst.PSI_COEF * aq.foldl (fun acc cz => acc + cz.2 * cz.1) 0 ∧
     ccmSigmaLa cap tk la = cap * la * Gen.SurfConst.CCM_FACTOR * Gen.SurfConst.R_KJ_DEG_MOL * tk * f.ln 10 / Gen.SurfConst.F_KJ_V_EQ := by
   refine ⟨by decide, by simp only [F_C_MOL, NumOps.lit, NumOps.ofRat, id_eq]; decide +kernel,
     by simp only [F_KJ_V_EQ, NumOps.lit, NumOps.ofRat, id_eq]; decide +kernel,
     by simp only [R_KJ_DEG_MOL, NumOps.lit, NumOps.ofRat, id_eq]; decide +kernel,
-    by simp only [EPSILON_ZERO, NumOps.lit, NumOps.ofRat, id_eq]; decide +kernel, ?_, ?_, ?_, ?_⟩
+    by simp only [EPSILON_ZERO, NumOps.lit, NumOps.ofRat, id_eq]; decide +kernel, ?_, ?_, ?_, ?_, ?_, ?_⟩
   · have e1 : Gen.SurfConst.GC_FACTOR = 8 := by decide +kernel
     have e2 : Gen.SurfConst.EPSILON_ZERO = 8854 / 1000000000000000 := by decide +kernel
     have e3 : Gen.SurfConst.R_KJ_DEG_MOL = 83147 / 10000000 := by decide +kernel
     simp only [sinhConstant, EPSILON_ZERO, R_KJ_DEG_MOL, NumOps.lit, NumOps.sqrt, NumOps.ofRat, id_eq, e1, e2, e3]
+    rfl
+  · have e1 : Gen.SurfConst.FSINH_FACTOR = 8000 := by decide +kernel
+    have e2 : Gen.SurfConst.EPSILON_ZERO = 8854 / 1000000000000000 := by decide +kernel
+    have e3 : Gen.SurfConst.R_KJ_DEG_MOL = 83147 / 10000000 := by decide +kernel
+    simp only [fSinh, EPSILON_ZERO, R_KJ_DEG_MOL, NumOps.lit, NumOps.sqrt, NumOps.ofRat, id_eq, e1, e2, e3]
+    rfl
+  · have e1 : Gen.SurfConst.ALPHA_FACTOR = 1 / 2 := by decide +kernel
+    have e2 : Gen.SurfConst.EPSILON_ZERO = 8854 / 1000000000000000 := by decide +kernel
+    have e3 : Gen.SurfConst.R_KJ_DEG_MOL = 83147 / 10000000 := by decide +kernel
+    simp only [alphaConst, EPSILON_ZERO, R_KJ_DEG_MOL, NumOps.lit, NumOps.sqrt, NumOps.ofRat, id_eq, e1, e2, e3]
     rfl
   · intro hs hx
     have e1 : Gen.SurfConst.CD_DDL_FACTOR = 1 / 2 := by decide +kernel
